@@ -223,3 +223,58 @@ Qed.
 Theorem reverse_text_spec : forall t bs, (1 <= bs)%nat -> forallb is_scalar t = true -> no_lone_cr t = true ->
   reverse_iter_lines TextUtf8 (utf8_encode t) bs (length (utf8_encode t)) = Ok (reverse_lines_spec t).
 Proof. intros. rewrite reverse_text_all by assumption. rewrite ril_tail_spec by assumption. reflexivity. Qed.
+
+(* ---- the strict decoder accepts exactly the encodings of scalar strings ------------------ *)
+Lemma decode_sound_n : forall n b t, (length b <= n)%nat -> utf8_decode b = Some t ->
+  utf8_encode t = b /\ forallb is_scalar t = true.
+Proof.
+  induction n as [|n IH]; intros b t L D.
+  - destruct b; [|cbn in L; lia]. cbn in D. inversion D. split; reflexivity.
+  - destruct b as [|b0 r0]; [cbn in D; inversion D; split; reflexivity|].
+    cbn [length] in L. cbn [utf8_decode] in D.
+    destruct (b0 <? 128) eqn:E1.
+    { destruct (utf8_decode r0) as [t'|] eqn:D'; [|discriminate]. cbn [option_map] in D. inversion D; subst t.
+      destruct (IH r0 t' ltac:(lia) D') as [En Sc]. split.
+      - rewrite encode_cons, En. unfold utf8_enc1. rewrite E1. reflexivity.
+      - cbn [forallb]. rewrite Sc. unfold is_scalar. lia. }
+    destruct ((194 <=? b0) && (b0 <=? 223)) eqn:E2.
+    { destruct r0 as [|b1 r1]; [discriminate|]. unfold is_cont in D.
+      destruct ((128 <=? b1) && (b1 <=? 191)) eqn:C1; [|discriminate].
+      destruct (utf8_decode r1) as [t'|] eqn:D'; [|discriminate]. cbn [option_map] in D. inversion D; subst t.
+      cbn [length] in L. destruct (IH r1 t' ltac:(lia) D') as [En Sc]. split.
+      - rewrite encode_cons, En. unfold utf8_enc1.
+        destruct ((b0 - 192) * 64 + (b1 - 128) <? 128) eqn:F1; [lia|].
+        destruct ((b0 - 192) * 64 + (b1 - 128) <? 2048) eqn:F2; [|lia].
+        cbn [app]. f_equal; [lia|]. f_equal. lia.
+      - cbn [forallb]. rewrite Sc. unfold is_scalar. lia. }
+    destruct ((224 <=? b0) && (b0 <=? 239)) eqn:E3.
+    { destruct r0 as [|b1 [|b2 r2]]; try discriminate. unfold is_cont in D.
+      destruct ((128 <=? b1) && (b1 <=? 191) && ((128 <=? b2) && (b2 <=? 191))
+                && (negb (b0 =? 224) || (160 <=? b1)) && (negb (b0 =? 237) || (b1 <=? 159))) eqn:C1; [|discriminate].
+      destruct (utf8_decode r2) as [t'|] eqn:D'; [|discriminate]. cbn [option_map] in D. inversion D; subst t.
+      cbn [length] in L. destruct (IH r2 t' ltac:(lia) D') as [En Sc]. split.
+      - rewrite encode_cons, En. unfold utf8_enc1.
+        destruct ((b0 - 224) * 4096 + (b1 - 128) * 64 + (b2 - 128) <? 128) eqn:F1; [lia|].
+        destruct ((b0 - 224) * 4096 + (b1 - 128) * 64 + (b2 - 128) <? 2048) eqn:F2; [lia|].
+        destruct ((b0 - 224) * 4096 + (b1 - 128) * 64 + (b2 - 128) <? 65536) eqn:F3; [|lia].
+        cbn [app]. f_equal; [lia|]. f_equal; [lia|]. f_equal. lia.
+      - cbn [forallb]. rewrite Sc. unfold is_scalar. lia. }
+    destruct ((240 <=? b0) && (b0 <=? 244)) eqn:E4; [|discriminate].
+    destruct r0 as [|b1 [|b2 [|b3 r3]]]; try discriminate. unfold is_cont in D.
+    destruct ((128 <=? b1) && (b1 <=? 191) && ((128 <=? b2) && (b2 <=? 191)) && ((128 <=? b3) && (b3 <=? 191))
+              && (negb (b0 =? 240) || (144 <=? b1)) && (negb (b0 =? 244) || (b1 <=? 143))) eqn:C1; [|discriminate].
+    destruct (utf8_decode r3) as [t'|] eqn:D'; [|discriminate]. cbn [option_map] in D. inversion D; subst t.
+    cbn [length] in L. destruct (IH r3 t' ltac:(lia) D') as [En Sc]. split.
+    + rewrite encode_cons, En. unfold utf8_enc1.
+      set (c := (b0 - 240) * 262144 + (b1 - 128) * 4096 + (b2 - 128) * 64 + (b3 - 128)).
+      assert (Hc : c = (b0 - 240) * 262144 + (b1 - 128) * 4096 + (b2 - 128) * 64 + (b3 - 128)) by reflexivity.
+      destruct (c <? 128) eqn:F1; [lia|].
+      destruct (c <? 2048) eqn:F2; [lia|].
+      destruct (c <? 65536) eqn:F3; [lia|].
+      cbn [app]. f_equal; [lia|]. f_equal; [lia|]. f_equal; [lia|]. f_equal. lia.
+    + cbn [forallb]. rewrite Sc. unfold is_scalar. lia.
+Qed.
+
+Theorem decode_sound : forall b t, utf8_decode b = Some t ->
+  utf8_encode t = b /\ forallb is_scalar t = true.
+Proof. intros b t. apply (decode_sound_n (length b)). lia. Qed.
